@@ -430,7 +430,10 @@ def _build_standard_attribute_values(
                 html_val = markupsafe.escape(capella_val)
             else:
                 html_val = "<div></div>"
-            xml_elem = html.fromstring(html_val)
+            try:
+                xml_elem = html.fromstring(html_val)
+            except etree.ParserError:
+                xml_elem = html.fromstring("<div></div>")
             html.html_to_xhtml(xml_elem)
             value_elem = E(
                 "ATTRIBUTE-VALUE-XHTML",
